@@ -39,7 +39,8 @@ structure St where
     `none` = extractor error -/
 def St.ext (st : St) (src port : String) : Option (String × Int) :=
   if st.clientip then
-    match Source.extractClientIP (Source.joinHostPort src.toList port.toList) with
+    -- `port=none`: RemoteAddr is the bare address
+    match Source.extractClientIP (if port == "none" then src.toList else Source.joinHostPort src.toList port.toList) with
     | .ok (t, a) => some (String.ofList t, a)
     | .error _ => none
   else if st.builtin then some (String.ofList (Source.headerGet [(st.hsend, src.toList)] st.hvar), 1)
@@ -74,7 +75,7 @@ def step (st : St) : List String → St × String
     if !known || opts.length > 2 || (st.builtin && !stockOk) || (!st.clientip && (Driver.kv opts "port").isSome) then (st, "bad-op") else
     if opts.contains "err=1" then apply st (.startErr id) else
     let port := (Driver.kv opts "port").getD "1234"
-    if !port.toList.all Char.isDigit then (st, "bad-op") else
+    if port != "none" && !port.toList.all Char.isDigit then (st, "bad-op") else
     match st.ext src port with
     | none => apply st (.startErr id)
     | some (tok, one) =>
